@@ -10,14 +10,19 @@ import (
 	"fmt"
 	"io"
 	"math/rand"
+	"bytes"
 	"os"
+	"sort"
 	"strings"
 	"time"
 
+	"github.com/anz-bank/sysl/pkg/cmdutils"
 	"github.com/anz-bank/sysl/pkg/database"
+	"github.com/anz-bank/sysl/pkg/sequencediagram"
 	"github.com/anz-bank/sysl/pkg/sysl"
 	"github.com/sirupsen/logrus"
 
+	"verifharness/internal/project"
 	"verifharness/internal/render"
 	"verifharness/internal/tr"
 )
@@ -32,6 +37,61 @@ type dtScenario struct {
 	// Versions: a history of relational models (spec/DbGen.tla) instead of decls: the last version is the model,
 	// and the delta script from the version before it is one more generator
 	Versions [][]dbTable `json:"versions"`
+	// Project: a project application is appended whose endpoints each draw one sequence diagram (`sysl sd -o %(epname).puml -a Proj`),
+	// with the first called endpoint of the model as a blackbox at the level of the project and of one of its endpoints
+	Project bool `json:"project"`
+}
+
+// projectApp lists up to four endpoints of the model as sequence diagrams of a project application.
+func projectApp(m *sysl.Module) []string {
+	var starts, called []string
+	for _, an := range sortedAppNames(m) {
+		a := m.GetApps()[an]
+		var eps []string
+		for en := range a.GetEndpoints() {
+			eps = append(eps, en)
+		}
+		sort.Strings(eps)
+		for _, en := range eps {
+			e := a.GetEndpoints()[en]
+			if e.GetIsPubsub() || e.GetSource() != nil || len(e.GetStmt()) == 0 {
+				continue
+			}
+			starts = append(starts, an+" <- "+en)
+			var walk func(ss []*sysl.Statement)
+			walk = func(ss []*sysl.Statement) {
+				for _, st := range ss {
+					if c := st.GetCall(); c != nil {
+						called = append(called, project.AppName(c.GetTarget())+" <- "+c.GetEndpoint())
+					}
+					for _, kids := range [][]*sysl.Statement{st.GetCond().GetStmt(), st.GetLoop().GetStmt(), st.GetLoopN().GetStmt(),
+						st.GetForeach().GetStmt(), st.GetGroup().GetStmt()} {
+						walk(kids)
+					}
+					for _, ch := range st.GetAlt().GetChoice() {
+						walk(ch.GetStmt())
+					}
+				}
+			}
+			walk(e.GetStmt())
+		}
+	}
+	if len(starts) < 2 || len(called) == 0 {
+		return nil
+	}
+	if len(starts) > 4 {
+		starts = starts[:4]
+	}
+	bb := called[0]
+	lines := []string{fmt.Sprintf("Proj [blackboxes=[[%q, \"cut at the level of the project\"]]]:", bb)}
+	for i, st := range starts {
+		h := fmt.Sprintf("    SEQ-%c", 'A'+i)
+		if i == 1 {
+			h += fmt.Sprintf(" [blackboxes=[[%q, \"cut at the level of the diagram\"]]]", bb)
+		}
+		lines = append(lines, h+":", "        "+st)
+	}
+	return lines
 }
 
 func dig(b []byte) string {
@@ -72,6 +132,11 @@ func runDeterminism(in, out string, _ []string) error {
 				}
 			}
 		}
+		if sc.Project && len(sc.Versions) == 0 {
+			if cr := compileFiles(res.Files, "main.sysl"); cr.panic == "" && cr.err == nil {
+				res.Files[0].Lines = append(res.Files[0].Lines, projectApp(cr.m)...)
+			}
+		}
 		w.Emit(tr.Ev{"t": sc.ID, "e": "begin", "pid": pid})
 		w.Flush()
 		var m *sysl.Module
@@ -86,6 +151,22 @@ func runDeterminism(in, out string, _ []string) error {
 			w.Emit(tr.Ev{"t": sc.ID, "e": "gen", "g": "compile", "k": 0, "input": sc.ID, "run": r, "pid": pid, "digest": digestNoLoc(cr.m)})
 		}
 		gens := generatorsFor(m)
+		if sc.Project && m.GetApps()["Proj"] != nil {
+			gens = append(gens, generator{name: "sd.project", f: func(m *sysl.Module) ([]byte, error) {
+				p := &cmdutils.CmdContextParamSeqgen{Output: "%(epname).puml", AppsFlag: []string{"Proj"}, Title: "t"}
+				out, err := sequencediagram.DoConstructSequenceDiagrams(p, m, quietLogger())
+				var names []string
+				for n := range out {
+					names = append(names, n)
+				}
+				sort.Strings(names)
+				var b bytes.Buffer
+				for _, n := range names {
+					b.WriteString("== " + n + "\n" + out[n] + "\n")
+				}
+				return b.Bytes(), err
+			}})
+		}
 		if older != nil {
 			gens = append(gens, generator{name: "dbscript.delta", f: func(m *sysl.Module) ([]byte, error) {
 				v := database.MakeDatabaseScriptView("t", quietLogger())
